@@ -18,6 +18,8 @@ struct Fns {
     structs: BTreeMap<String, (String, String, usize)>,
     /// free functions by name
     free: BTreeMap<String, (String, String, usize)>,
+    /// (self type, fn name) -> normalised impl header (generics, self type with arguments, where clause)
+    hdr: BTreeMap<(String, String), String>,
 }
 
 /// every token separated by one space, delimiters included (`f ( & x )`, `a :: b`, `x . y ( )`)
@@ -102,6 +104,13 @@ impl<'a, 'ast> Visit<'ast> for V<'a> {
                         let body = norm(&f.block);
                         let sig = norm(&f.sig);
                         self.fns.map.insert((key.clone(), f.sig.ident.to_string()), (format!("{} {}", sig, body), self.file.clone(), line));
+                        let header = format!(
+                            "impl {} {} {}",
+                            norm(&im.generics.params),
+                            norm(&im.self_ty),
+                            im.generics.where_clause.as_ref().map(norm).unwrap_or_default()
+                        );
+                        self.fns.hdr.insert((key.clone(), f.sig.ident.to_string()), header);
                     }
                 }
             }
@@ -661,6 +670,61 @@ fn main() {
         let old = fs::read_to_string(&sp).unwrap_or_default();
         if old != spawn_lean {
             fs::write(&sp, &spawn_lean).unwrap();
+        }
+    }
+
+    // ---- C19: trait bounds of the public entry points
+    let entry_fns: Vec<(&str, &str, &str)> = vec![
+        ("addrSend", "Addr", "send"), ("addrCall", "Addr", "call"), ("addrSender", "Addr", "sender"),
+        ("addrWeakSender", "Addr", "weak_sender"), ("addrCaller", "Addr", "caller"),
+        ("addrWeakCaller", "Addr", "weak_caller"), ("ctxWeakSender", "Context", "weak_sender"),
+        ("ctxWeakCaller", "Context", "weak_caller"), ("ctxInterval", "Context", "interval"),
+        ("ctxIntervalWith", "Context", "interval_with"), ("ctxDelayedSend", "Context", "delayed_send"),
+        ("ctxRegisterChild", "Context", "register_child"), ("ctxSendToChildren", "Context", "send_to_children"),
+        ("ctxSubscribe", "Context", "subscribe"), ("ctxPublish", "Context", "publish"),
+        ("brokerPublish", "Broker", "publish"), ("brokerSubscribe", "Broker", "subscribe"),
+        ("addrRestart", "Addr", "restart"), ("ctxRestart", "Context", "restart"),
+        ("withStream", "ActorBuilderWithChannel", "with_stream"),
+        ("recreateFromDefault", "ActorBuilderWithChannel", "recreate_from_default"),
+    ];
+    let mut bounds_lean = String::from("import Hannibal.Model.Types\n/- GENERATED by /verif/extract from /repo's working tree on every check run. Do not edit. -/\nnamespace Hannibal\n\ndef Bounds.current : ApiEntry → List Bound\n");
+    for (name, ty, fnn) in &entry_fns {
+        let key = (ty.to_string(), fnn.to_string());
+        let mut bs: Vec<&str> = vec![];
+        if let (Some(k), Some(h)) = (fns.map.get(&key), fns.hdr.get(&key)) {
+            // signature = text up to the body's opening brace
+            let sig = k.0.split(" { ").next().unwrap_or("");
+            let text = format!("{} {}", h, sig);
+            if text.contains("A : Handler < M >") || text.contains("+ Handler < M >") {
+                bs.push(".handler");
+            }
+            if text.contains("Message < Response = ( ) >") {
+                bs.push(".unitResponse");
+            }
+            if text.contains("A : RestartableActor") {
+                bs.push(".restartable");
+            }
+            if text.contains("+ Default") || text.contains("A : Default") {
+                bs.push(".default");
+            }
+            if text.contains("A : StreamHandler < S :: Item >") {
+                bs.push(".streamHandler");
+            }
+            if h.contains("ActorBuilderWithChannel < A , P , NonRestartable >") {
+                bs.push(".nonRestartableState");
+            }
+            o.put(&format!("bounds.{}", name), format!("[{}]", bs.join(", ")), at(k));
+        } else {
+            o.put(&format!("bounds.{}", name), "unknown", "");
+        }
+        bounds_lean.push_str(&format!("  | .{} => [{}]\n", name, bs.join(", ")));
+    }
+    bounds_lean.push_str("\nend Hannibal\n");
+    if let Some(dir) = Path::new(lean_out).parent() {
+        let sp = dir.join("Bounds.lean");
+        let old = fs::read_to_string(&sp).unwrap_or_default();
+        if old != bounds_lean {
+            fs::write(&sp, &bounds_lean).unwrap();
         }
     }
 
